@@ -5,6 +5,7 @@ use crate::util::Stats;
 use std::io::Write;
 
 pub mod url;
+pub mod inlineops;
 pub mod ruler;
 pub mod eset;
 pub mod render;
@@ -41,6 +42,7 @@ pub type StreamFn = fn(n: usize, rng: &mut Rng, out: &mut Out);
 pub fn streams() -> Vec<(&'static str, StreamFn)> {
     vec![
         ("url", url::run as StreamFn),
+        ("inlineops", inlineops::run as StreamFn),
         ("ruler", ruler::run as StreamFn),
         ("eset", eset::run as StreamFn),
         ("tree", eset::run_tree as StreamFn),
